@@ -47,6 +47,8 @@ func main() {
 		os.Exit(faults(os.Args[2:]))
 	case "faultchild":
 		os.Exit(faultChild(os.Args[2:]))
+	case "gramlist":
+		os.Exit(gramList(os.Args[2:]))
 	default:
 		fmt.Fprintf(os.Stderr, "unknown mode %q\n", os.Args[1])
 		os.Exit(2)
@@ -448,6 +450,13 @@ func runFault(seed uint64, f *faultCase, ci int, deadline time.Duration) (string
 }
 
 func streamSessFromArgs(prog, gin, ein string) *streamSess {
+	if strings.HasPrefix(prog, "gram/") {
+		p, err := gramProg(prog)
+		if err != nil {
+			return nil
+		}
+		return &streamSess{prog: p, src: p.src, gin: splitIn(gin), ein: splitIn(ein), outBits: p.outBits}
+	}
 	for k := range streamProgs {
 		if streamProgs[k].name == prog {
 			p := &streamProgs[k]
@@ -590,6 +599,7 @@ func faults(args []string) int {
 		ss     *streamSess
 		lay    *layout
 		rec    []byte // the baseline garbler->evaluator stream of a streaming session
+		gram   bool   // a session of a program generated from the type grammar (gram.go)
 	}
 	var bases []base
 	for ci := 0; ci < nsess; ci++ {
@@ -644,6 +654,42 @@ func faults(args []string) int {
 		o.Sample(map[string]any{"session": ci, "mode": "streaming", "program": ss.prog.name, "gin": ss.gin, "ein": ss.ein,
 			"bytes_g2e": len(d.AB.Rec), "bytes_e2g": len(d.BA.Rec), "fields": len(lay.fields)})
 	}
+	// sessions of the programs generated from the type grammar (gram.go): one
+	// per evaluator argument kind; they take part in the argument description
+	// faults only
+	nold := len(bases)
+	for k, ss := range gramSessions(cf.Seed) {
+		ci := gramBase + k
+		class, d := runStreamFault(cf.Seed, nil, ci, ss, false, 30*time.Second)
+		if class != "ok" {
+			o.Fail("c16-baseline", map[string]any{"session": ci, "class": class, "program": ss.prog.name, "gin": ss.gin, "ein": ss.ein})
+			return 0
+		}
+		iclass, id := runStreamFault(cf.Seed, nil, ci, ss, true, 30*time.Second)
+		lay := &layout{err: "ideal-OT baseline: " + iclass}
+		if iclass == "ok" {
+			lay = streamLayout(d.AB.Rec, d.BA.Rec, id.AB.Rec, id.BA.Rec, ss.outBits)
+		}
+		if lay.err != "" {
+			o.Count("stream_layout_failed")
+			o.Meta["stream_layout_error"] = fmt.Sprintf("session %d (%s): %s", ci, ss.prog.name, lay.err)
+		} else {
+			o.Count("gram_layout_ok")
+			o.CountN("gram_description_records", lay.in1.records()+lay.in2.records())
+			if lay.in2.depth() > 1 {
+				o.Count("gram_evaluator_description_with_members")
+			}
+		}
+		bases = append(bases, base{ci: ci, ab: len(d.AB.Rec), ba: len(d.BA.Rec), ss: ss, lay: lay, rec: d.AB.Rec, gram: true})
+		o.Count("gram_sessions")
+		for _, part := range strings.Split(ss.prog.name, "/")[1:] {
+			o.Count("gram_kind_" + part[:4]) // G=sc, E=sa, ...
+		}
+		if k < 2 {
+			o.Sample(map[string]any{"session": ci, "mode": "streaming", "program": ss.prog.name, "gin": ss.gin, "ein": ss.ein,
+				"bytes_g2e": len(d.AB.Rec), "fields": len(lay.fields)})
+		}
+	}
 	// enumerate cases
 	var cases []faultCase
 	seen := map[string]bool{}
@@ -682,7 +728,7 @@ func faults(args []string) int {
 		}
 	} else {
 		for k := 0; k < cf.N; k++ {
-			b := bases[k%len(bases)]
+			b := bases[k%nold]
 			dir := rng.Intn(2)
 			n := b.ab
 			if dir == 1 {
@@ -708,7 +754,7 @@ func faults(args []string) int {
 	// uses to pick the labels it returns; every byte of it gets bit flips of
 	// the low bits (all 8 bits in the thorough tier).
 	for _, b := range bases {
-		if b.ss == nil || (!thorough && b.ci >= streamBase+len(streamProgs)) {
+		if b.ss == nil || b.gram || (!thorough && b.ci >= streamBase+len(streamProgs)) {
 			continue
 		}
 		lo := b.ab - (4*b.ss.outBits + 16)
@@ -736,6 +782,40 @@ func faults(args []string) int {
 	// with the same arithmetic targets).
 	for _, b := range bases {
 		if b.ss == nil || b.lay.err != "" {
+			continue
+		}
+		if b.gram {
+			// every WIDTH / COUNT field and every type-string digit of EVERY node of
+			// the two argument description trees
+			for _, fd := range b.lay.fields {
+				if fd.off >= b.lay.headerEnd || !(strings.HasPrefix(fd.path, "in1") || strings.HasPrefix(fd.path, "in2")) {
+					continue
+				}
+				switch fd.kind {
+				case "typedigit":
+					for dgt := '0'; dgt <= '9'; dgt++ {
+						if int(dgt) != fd.val {
+							add(faultCase{b.ci, 0, fd.off, "xor", (fd.val ^ int(dgt)) << 24}, "gram_field_cases_typedigit")
+						}
+					}
+				case "bits", "ccount":
+					for _, t := range lengthTargets(fd.val, true) {
+						add(faultCase{b.ci, 0, fd.off, "xor", fd.val ^ t}, "gram_field_cases_"+fd.kind)
+					}
+					if fd.kind == "bits" {
+						for bit := 0; bit < 8; bit++ {
+							add(faultCase{b.ci, 0, fd.off + 3, "bit", bit}, "gram_field_cases_bits")
+						}
+						if strings.Contains(fd.path, ".m") {
+							o.Count("gram_member_size_words")
+						}
+					}
+				case "typelen", "namelen":
+					for _, t := range lengthTargets(fd.val, false) {
+						add(faultCase{b.ci, 0, fd.off, "xor", fd.val ^ t}, "gram_field_cases_"+fd.kind)
+					}
+				}
+			}
 			continue
 		}
 		first := b.ci < streamBase+len(streamProgs)
@@ -805,7 +885,7 @@ func faults(args []string) int {
 	// bits in the thorough tier).
 	for _, b := range bases {
 		outBits := outBitsOf(b)
-		if b.ss != nil && !thorough && b.ci >= streamBase+len(streamProgs) {
+		if b.gram || (b.ss != nil && !thorough && b.ci >= streamBase+len(streamProgs)) {
 			continue
 		}
 		for j := 0; j < outBits; j++ {
